@@ -121,6 +121,16 @@ Proof.
   destruct (negb (forallb validate_basic (m0 :: ms))); [reflexivity|]. rewrite Hp. reflexivity.
 Qed.
 
+(* (7) somebody else's account is charged only with its consent: a transaction of the settlus route that names a fee
+   granter other than the payer is admitted only if the granter's allowance for the payer covers the fee charged *)
+Theorem C16_granter_consents : forall o h tx, admits o h tx = true ->
+  route_of (tx_msgs tx) = RSettlus -> tx_grant_ok tx = true.
+Proof.
+  intros o h tx Ha Hr. unfold admits, admits_with in Ha. rewrite Hr in Ha.
+  destruct (tx_msgs tx); [discriminate|]. unfold settlus_admits in Ha.
+  apply andb_true_iff in Ha as [Hg _]. exact Hg.
+Qed.
+
 Example C16_nonvacuous :
   let prices := [([115], 100000000000000); ([117], 2333333333333333333)] in   (* 10^-4 and 2.333.. *)
   let ms := [MCancel 1 1 []; MCreateTenant 1 [117; 116; 111; 107] 3] in
@@ -138,4 +148,5 @@ Print Assumptions C16_surplus_irrelevant.
 Print Assumptions C16_only_kinds_matter.
 Print Assumptions C16_split.
 Print Assumptions C16_charged_regardless.
+Print Assumptions C16_granter_consents.
 Print Assumptions C16_uncovered_rejected.
